@@ -20,6 +20,26 @@ far:
 end:
 """
 
+# several names for one location, a label before and after an align that needs no padding, a program without labels
+GOOD_SHARED = """\
+_start:
+reset_handler:
+    addi x1, x1, 1
+    addi x8, x8, 2
+    align 4
+after_align:
+default_handler:
+irq_handler:
+    j _start
+data_end:
+_end:
+"""
+
+GOOD_NOLABELS = """\
+    addi x1, x1, 1
+    dw 0x12345678
+"""
+
 FAULTS = {
     'parse': 'start:\n    addi x1, x2\n    frobnicate x1\n',
     'constant': 'FOO = BAR + 1\nstart:\n    addi x1, x1, FOO\n',
@@ -30,6 +50,8 @@ FAULTS = {
     'register': 'start:\n    addi x1, q9, 1\n',
     'error-directive': 'start:\n    addi x1, x1, 1\n    error stop here\n',
     'include': 'start:\n    include does_not_exist.asm\n',
+    'include-missing': 'start:\n    addi x1, x1, 1\ninclude does_not_exist.asm\n',
+    'include-bytes-missing': 'start:\ninclude_bytes does_not_exist.bin\n',
     'data-range': 'start:\n    db 300\n',
     'sequence': 'start:\n    bytes 1 2 zz\n',
 }
@@ -79,9 +101,9 @@ def cases(tier):
     opts = []
     for c, l, hx, o in itertools.product((False, True), (False, True), (None, '0x08000000', '0', 'zz'), (False, True)):
         opts.append({'compress': c, 'labels': l, 'hex': hx, 'output': o})
-    for src_name, src in [('good', GOOD)] + sorted(FAULTS.items()):
+    for src_name, src in [('good', GOOD), ('good-shared-addresses', GOOD_SHARED), ('good-no-labels', GOOD_NOLABELS)] + sorted(FAULTS.items()):
         for op in opts:
-            if tier == 'quick' and src_name != 'good' and (op['hex'] == '0' or not op['output']):
+            if tier == 'quick' and src_name != 'good' and (op['hex'] == '0' or not op['output'] or (src_name.startswith('good-') and op['hex'] == 'zz')):
                 continue
             yield src_name, src, op
 
@@ -121,8 +143,8 @@ def run_case(d, src_name, src, op):
         if op['labels']:
             lines = open(labp).read().splitlines()
             want = ['%s 0x%08x' % (k, v) for k, v in api['labels'].items()]
-            if lines != want:
-                fails.append('%s: -l file %r, expected %r' % (desc, lines[:4], want[:4]))
+            if sorted(lines) != sorted(want):      # one line per label with its final address (any order)
+                fails.append('%s: -l file %r, expected one line per label %r' % (desc, lines[:6], want[:6]))
         elif open(labp, 'rb').read() != old[labp]:
             fails.append('%s: labels file touched without -l' % desc)
         if op['hex'] is not None:
